@@ -455,7 +455,7 @@ def special_cases(r: Any) -> list[dict[str, Any]]:
         c["variant"] = "uuid"
         out.append(c)
     # --hsm restricts the initialised modules
-    for name in ("hsm0", "hsm1", "nosuch"):
+    for name in ("hsm0", "hsm1", "nosuch", ""):  # "" is falsy: no restriction, no error
         c = gen_case(r, 3)
         c["hsm"] = name
         c["variant"] = "hsm-name"
@@ -593,9 +593,9 @@ def present_on_token(case: dict[str, Any], k: dict[str, Any]) -> bool:
     """Is the public object of this configured KSK in a slot of an initialised module that could be opened?"""
     pl = usable_place(case, k)
     if pl in ("present", "public_only", "second_slot"):
-        return case["hsm"] in (None, "hsm0")
+        return case["hsm"] in (None, "", "hsm0")  # an empty --hsm is "not given"
     if pl == "second_module":
-        return case["hsm"] in (None, "hsm1")
+        return case["hsm"] in (None, "", "hsm1")
     return False
 
 
